@@ -127,10 +127,18 @@ def _solve_one(task):
         t0 = time.time()
         st, model = "unknown", None
         try:
-            if be == "z3-api":
+            if be.startswith("z3-api"):
                 ctx = z3.Context()
                 s = z3.Solver(ctx=ctx)
-                s.set("timeout", timeout_ms)
+                # z3's default strategy is unstable on ground sequence + arithmetic queries (the same query is
+                # `unknown` at 8 s by default and `unsat` in 10 ms with another arithmetic core), hence a portfolio
+                if be == "z3-api/arith2":
+                    s.set("smt.arith.solver", 2)
+                elif be == "z3-api/noauto":
+                    s.set("auto_config", False)
+                elif be == "z3-api/seed":
+                    s.set("smt.random_seed", 7)
+                s.set("timeout", timeout_ms if be == "z3-api" else max(1000, timeout_ms // 2))
                 s.from_string(smt2)
                 r = s.check()
                 st = str(r)
@@ -146,7 +154,10 @@ def _solve_one(task):
             elif be in ("cvc5", "z3-cli"):
                 with tempfile.NamedTemporaryFile("w", suffix=".smt2", delete=False, dir=os.environ.get("PYVC_TMP")) as f:
                     f.write("(set-logic ALL)\n" if be == "cvc5" else "")
-                    f.write(smt2)
+                    txt = smt2
+                    if be == "cvc5":   # z3 5.x spells the int/bit-vector conversions differently from cvc5 1.0
+                        txt = txt.replace("(_ int_to_bv ", "(_ int2bv ").replace("ubv_to_int", "bv2nat").replace("bv2int", "bv2nat")
+                    f.write(txt)
                     if "(check-sat)" not in smt2:
                         f.write("\n(check-sat)\n")
                     path = f.name
@@ -169,7 +180,7 @@ def _solve_one(task):
         if st == "unsat":
             res.update(status="unsat", backend=be)
             return res
-        if st == "sat" and be == "z3-api":
+        if st == "sat" and be.startswith("z3-api"):
             res.update(status="sat", backend=be, model=model)
             return res
     return res
@@ -186,7 +197,7 @@ def pool():
     return _pool
 
 
-def discharge(vcs, timeout_ms=10000, backends=("z3-api", "cvc5"), want_model=True, depths=(1, 2, 3)):
+def discharge(vcs, timeout_ms=10000, backends=("z3-api", "cvc5", "z3-api/arith2", "z3-api/noauto"), want_model=True, depths=(1, 2, 3)):
     """Discharge all undecided VCs in parallel. Fills vc.status / backend / seconds / model.
     Portfolio: each VC is first tried with one round of definitional unfolding and a short budget, the
     ones left open are retried with deeper unfolding and the full budget."""
